@@ -252,6 +252,7 @@ func NewGrafanaNet(key string, matcher matcher.Matcher, cfg GrafanaNetConfig) (R
 
 // run manages incoming and outgoing data for a shard
 func (route *GrafanaNet) run(in chan []byte) {
+	defer route.wg.Done()
 	var metrics []*schema.MetricData
 	buffer := new(bytes.Buffer)
 
@@ -280,11 +281,25 @@ func (route *GrafanaNet) run(in chan []byte) {
 			timer.Reset(route.Cfg.FlushMaxWait)
 			metrics = route.retryFlush(metrics, buffer)
 		case <-route.shutdown:
+			// also flush what is still waiting in our queue
+			for len(in) > 0 {
+				buf := <-in
+				route.numBuffered.Dec(1)
+				md, err := parseMetric(buf, route.schemas, route.Cfg.OrgID)
+				if err != nil {
+					log.Errorf("RouteGrafanaNet: parseMetric failed: %s. skipping metric", err)
+					continue
+				}
+				md.SetId()
+				metrics = append(metrics, md)
+				if len(metrics) == route.Cfg.FlushMaxNum {
+					metrics = route.retryFlush(metrics, buffer)
+				}
+			}
 			metrics = route.retryFlush(metrics, buffer)
 			return
 		}
 	}
-	route.wg.Done()
 }
 
 func (route *GrafanaNet) retryFlush(metrics []*schema.MetricData, buffer *bytes.Buffer) []*schema.MetricData {
@@ -459,7 +474,8 @@ func (route *GrafanaNet) Shutdown() error {
 	//conf := route.config.Load().(Config)
 
 	// trigger all of our queues to be flushed to the tsdb-gw
-	route.shutdown <- struct{}{}
+	// (every worker must see the signal, so close the channel rather than send one value)
+	close(route.shutdown)
 
 	// wait for all tsdb-gw writes to complete.
 	route.wg.Wait()
